@@ -35,6 +35,12 @@ def main():
     jobs += [("MC_UnifyAlg", c12.alg_cfg(4, False, "AlgSound AlgReflRed"), "unifyalg-design-4"), ("MC_UnifyAlg", c12.alg_cfg(4, True, "AlgSoundModuloCopies AlgReflRed"), "unifyalg-code-4")]
     from checks import c17
     jobs.append(("GramPackrat", c17.PACKRAT_CFG, "packrat"))
+    from checks import pegcommon
+    sents, _ = pegcommon.sentences_file(5)
+    for name, alphabet, n in pegcommon.models(True):
+        cfg = vf.cfg_consts(N=n, Alphabet=set(alphabet)) + "INIT Init\nNEXT Next\nINVARIANT PegIsCfgAndSane\nCHECK_DEADLOCK FALSE\n"
+        st = vf.tlc_generate("MC_Peg", cfg, "peg-" + name, workers=14, timeout=7200, env={"SENTS": sents})
+        print("warm %-16s %-18s %s %6.1fs %d states" % ("MC_Peg", "peg-" + name, "cached" if st.get("cached") else "generated", st["wall_s"], st["distinct"]), flush=True)
     for module, cfg, name in jobs:
         heap = "20g" if module == "MC_Grammar" else "12g"
         st = vf.tlc_generate(module, cfg, name, timeout=6000, workers=14, heap=heap)
